@@ -34,7 +34,7 @@ type c17DB struct {
 }
 
 func checkC17(c *core.Ctx) []core.Floor {
-	c.Rule = "scripts of 15-60 steps over 2-4 databases (one script in 48 opens by creating 100-1030 further databases and lists them before and after a restart) in one session per process lifetime, REAL 100 ms flush timer: CREATE DATABASE (new / existing / other letter case), USE (another / the current one / a missing one / other letter case), SHOW DATABASES, DDL and DML as SQL text through Session.ExecQuery, pauses of 0 / 130 / 350 ms, and restarts (clean close, os.Exit without close, SIGKILL; abrupt ones after a pause of > 2 ticks) after which a new process runs InitStorage and continues the script. Oracle: model of databases; the current database changes only on a successful USE; after every successful USE every table of the selected database is read and compared; at every restart boundary the data directory (process gone, hence quiescent) is copied and a separate process recovers the copy and reads every table of every database; SHOW DATABASES must equal the created names (lower-cased set). Distinct = script; non-trivial = the script re-selected the current database or switched databases with unflushed work, then paused >= 1 tick."
+	c.Rule = "scripts of 15-60 steps over 2-4 databases (names of letters, digits and underscores, also with a leading underscore; one script in 48 opens by creating 100-1030 further databases and lists them before and after a restart) in one session per process lifetime, REAL 100 ms flush timer: CREATE DATABASE (new / existing / other letter case), USE (another / the current one / a missing one / other letter case), SHOW DATABASES, DDL and DML as SQL text through Session.ExecQuery, pauses of 0 / 130 / 350 ms, and restarts (clean close, os.Exit without close, SIGKILL; abrupt ones after a pause of > 2 ticks) after which a new process runs InitStorage and continues the script. Oracle: model of databases; the current database changes only on a successful USE; after every successful USE every table of the selected database is read and compared; at every restart boundary the data directory (process gone, hence quiescent) is copied and a separate process recovers the copy and reads every table of every database; SHOW DATABASES must equal the created names (lower-cased set). Distinct = script; non-trivial = the script re-selected the current database or switched databases with unflushed work, then paused >= 1 tick."
 	c.Assume = []string{"database names are compared case-insensitively (directories are lower-cased)", "abrupt restarts follow a pause of more than two ticks and a look at the cache (no dirty page left), so that a kill never lands inside a page flush (that situation is C04's)"}
 	drv := mustDriver(c, false)
 	n := 96
@@ -51,7 +51,8 @@ func runC17(c *core.Ctx, drv string, idx int) {
 	r := core.NewRand(core.SubSeed(c.Seed, "C17", idx))
 	dir := c.CaseDir("c17")
 	defer removeAll(dir)
-	names := []string{"alpha", "Beta", "gamma", "DELTA"}[:r.Range(2, 4)]
+	// (names that begin with an underscore or contain digits are identifiers like any other)
+	names := [][]string{{"alpha", "Beta", "gamma", "DELTA"}, {"_staging", "db_2", "Beta", "x9"}, {"alpha", "_s", "B_", "_9"}}[r.Intn(3)][:r.Range(2, 4)]
 	// ---- generate the script against the model ----
 	dbs := map[string]*c17DB{}
 	cur := ""
